@@ -49,7 +49,8 @@ def real_stage(ctx):
     caps = {'*': 150, 'vhdx': 220, 'vmdk': 260, 'gpt': 200, 'qcow2': 250} if quick else \
            {'*': 400, 'vhdx': 900, 'vmdk': 900, 'gpt': 600, 'qcow2': 800}
     chosen = ri.select(records, caps, rnd, always=lambda rec: rec['L']['fmt'] == 'vhdx' and (
-        rec['L']['rpad'] >= 2045 or rec['L']['mpad'] >= 2045 or rec['L']['rcount'] > 2000 or rec['L']['mcount'] > 2000))
+        rec['L']['rpad'] >= 2045 or rec['L']['mpad'] >= 2045 or rec['L']['rcount'] > 2000 or rec['L']['mcount'] > 2000
+        or 192 * 1024 <= rec['L']['meta_off'] < 256 * 1024))      # pointers back into the region-table window
     stats = {'layouts': 0, 'accepted': 0, 'classes': {}}
 
     def handler(item, r, size):
